@@ -118,6 +118,19 @@ def main(tier):
                 execs.append([{"e": "Split", "cmd": "ddiff %s %s -f '%s'" % (dc.text(a, True), dc.text(bb, True), dc.fmt_of(units, "")),
                                "fmt": "".join(units), "dd": dd, "ds": ds, "units": rest, "vals": {u: p[0][u] for u in rest},
                                "minus": p[1], "lead": bool(p[2]), "out": line}])
+        # year/month specifiers next to time units, date-times months and years apart: the components, applied to the earlier value the way
+        # dateadd would (years and months in one step keeping the day, then the fixed-length units), must land on the later one -- what is above
+        # the coarsest fixed-length unit and below the months may not get lost (DiffTrace.tla, shared with C05)
+        # (times on full hours: formats whose finest unit is the hour or minute then lose nothing to truncation)
+        ymp = [dc.point(ch, ch.ldn_of(*x), sod) for x, sod in (((2012, 1, 1), 0), ((2012, 3, 1), 3600), ((2012, 3, 28), 82800), ((2013, 3, 1), 3600), ((2011, 11, 27), 43200),
+                                                              ((2012, 2, 28), 0), ((2016, 2, 28), 7200), ((2015, 12, 28), 36000))]
+        dexecs = []
+        for units in (["Y", "H"], ["Y", "m", "H"], ["m", "H", "M"], ["Y", "m", "d", "H", "M", "S"], ["m", "d", "S"], ["Y", "M"], ["m", "S"], ["Y", "d", "H"]):
+            evs, k = dc.diff_events(rep, ddiff, ymp, True, units, max_span=2000)
+            dexecs += evs
+            nrun += k
+        cc.validate_and_report(rep, "DiffTrace", "DiffTrace.cfg", dexecs, lambda bad, ex: "ddiff year/month with time units %s: components do not lead from the earlier to the later value" % bad.get("fmt"),
+                               "ddiff_ym_time", group=lambda ex: ex[0]["fmt"])
         rep.notes["tool_runs"] = nrun
         cc.validate_and_report(rep, "DurationTrace", "DurationTrace.cfg", execs, lambda bad, ex: "ddiff split %s" % bad.get("fmt"), "ddiff_split",
                                group=lambda ex: ex[0]["fmt"])
